@@ -297,6 +297,30 @@ def hypField (fs0 : FS) (invs : List String) : String :=
       | _ => "na"
   | [] => "na"
 
+/-- An instance of the refinement theorem, checked on the executed model (`C05_checked_instance`, whose static
+hypotheses are discharged by `hypsHold`: `hypsHold_sound`): for the first invocation, if `hypsHold` holds, it is a real
+single-threaded run that applies something, and the specification neither refuses nor meets an output failure, the
+driver model's tree and exit status ARE the specification's.  `FAIL` here would mean that the compiled model and the
+model the kernel checked are not the same function. -/
+def thmField (fs0 : FS) (invs : List String) : String :=
+  match invs with
+  | a :: _ =>
+    let inv := parseArgs (if a == "-" then [] else a.splitOn " ") ()
+    if inv.bad || inv.badLate || inv.cfg.dryRun || inv.threads > 1 then "na"
+    else match plan inv.cfg fs0 with
+      | .apply range =>
+        if !hypsHold fs0 inv.cfg range then "na"
+        else
+          let sp := Spec.pushSpec inv.cfg fs0
+          let refused := match Spec.applyRangeTree inv.cfg fs0 range { fs := fs0, k := 0, rejs := [], failed := false, backups := [] } with
+            | .ok _ => false | .error _ => true
+          if refused || sp.ioError then "na"
+          else
+            let (out, w) := push inv.cfg { fs := fs0 }
+            if out.exit == sp.exit && renderTree w.fs == renderTree sp.fs then "ok" else "FAIL"
+      | _ => "na"
+  | [] => "na"
+
 /-- the class of known finding the invocation falls in, if its outcome differs from the specification.
 `refused`: the implementation exited with status 1 and left the tree as it was. -/
 def knownClass (fs : FS) (a : String) (refused : Bool) (implT specT : FS) : Option String :=
@@ -489,10 +513,13 @@ def step (fields : List String) : String :=
     -- C06: a parallel run (any forced schedule) must equal the single-threaded specification, provided all
     -- patches of the range parse (the parallel driver parses the whole range up front)
     let specV := specVerdict (parseTree tree) invs impl
-    let c06 := if !par then "na" else if !(invs.all (rangeParses (parseTree tree))) then "na"
+    -- (every invocation's range is resolved on the tree that invocation starts from: the one the implementation left)
+    let startTrees : List FS := (parseTree tree) :: (impl.map (fun r => parseTree (fieldOf r "tree")))
+    let allParse := (invs.zip startTrees).all (fun (a, t) => rangeParses t a)
+    let c06 := if !par then "na" else if !allParse then "na"
                else if specV.startsWith "KNOWN:" then specV
                else if specV != "ok" then "FAIL:differs-from-single-threaded:" ++ (specV.splitOn " ").headD "" else if !ok then "MODEL" else "ok"
-    s!"{cid} eq={boolS (ok || c06 == "na" && par)} firstbad={optNatS firstBad} C06={c06} SPEC={specV} ABS={absVerdict (parseTree tree) invs impl} C08S={c08Statement (parseTree tree) invs impl} C13={c13 (parseTree tree) invs impl specV} C10={c10 invs impl ioFlags} C15={c15 impl} C19={c19 impl} C11={c11 impl} C07={c07 impl} HYP={hypField (parseTree tree) invs} model={"|".intercalate m}"
+    s!"{cid} eq={boolS (ok || c06 == "na" && par)} firstbad={optNatS firstBad} C06={c06} SPEC={specV} ABS={absVerdict (parseTree tree) invs impl} C08S={c08Statement (parseTree tree) invs impl} C13={c13 (parseTree tree) invs impl specV} C10={c10 invs impl ioFlags} C15={c15 impl} C19={c19 impl} C11={c11 impl} C07={c07 impl} HYP={hypField (parseTree tree) invs} THM={thmField (parseTree tree) invs} model={"|".intercalate m}"
   | _ => "bad-line"
 
 /-- Engine `F` (C18): one invocation with the k-th file-system write failing.
